@@ -975,6 +975,19 @@ def gen_C16(rng, tier):
         if n: L.append('it 1 iter 0 %s' % ','.join(['n'] * min(n + 2, 50)))
         else: L.append('it 1 iter 0 n,n')
         cases.append(L)
+    # the high-bit vector has a length that is an exact multiple of 64 and its last word is used (whatever walks it word by word
+    # must not lose a full last word): (m + 1) + (u >> l) + 1 ≡ 0 (mod 64), values up to u - 1
+    for ci in range(8 if tier == 'quick' else 60):
+        for _ in range(2000):
+            m = rng.choice([21, 31, 40, 64, 100, 127, 300]); u = rng.randrange(m // 2, 40 * m)
+            lw = (u // m).bit_length() - 1 if u // m else 0
+            if ((m + 1) + (u >> lw) + 1) % 64 == 0 and u > 2: break
+        else: continue
+        xs = sorted(rng.randrange(0, u) for _ in range(m - 2)) + [u - 1, u - 1]
+        L = ['case C16-wordfit-%d u=%d m=%d' % (ci, u, m), 'new 0 efb new %d %d' % (u, m), 'm 0 extend %s' % lst(xs), 'q 0 num_vals', 'new 1 ef build 0 1', 'q 1 len', 'q 1 universe']
+        for k in sorted(set([0, 1, m // 2, m - 3, m - 2, m - 1, m])): L.append('q 1 select %d' % k)
+        L.append('it 1 iter %d n,n,n,n' % (m - 3))
+        cases.append(L)
     # large builders: what is built must be what was accepted also when the high bits get sparse 1024-blocks, and when the
     # final partial block of 32j+1 accepted values spans exactly the dense/sparse threshold of the select index
     shapes = [(u_, xs_, 'big-%d' % i) for i, (u_, xs_) in enumerate(big_ef_shapes(rng, tier)[:(1 if tier == 'quick' else 3)])]
